@@ -1,0 +1,7 @@
+//go:build !verif
+
+package netty
+
+// verifPoint marks a linearization point for the model-based verification
+// harness (build tag "verif"); without the tag it is an empty, inlinable no-op.
+func verifPoint(obj interface{}, point string) {}
